@@ -38,6 +38,7 @@ CONSTANTS MaxRoots,   \* enumeration bound on the number of roots on the command
           Source,     \* "enum" | "file"
           Guess,      \* "set"    : name = '/'.join(system.root_names)              (driver.py:75)
                       \* "rootobjects" : name joined in command line order (the proposed fix)
+          ReuseUpTo,  \* the reused output directory is explored for inputs with at most this many roots
           Listing     \* "sorted" : for path in sorted(package_path.iterdir())       (model.py:1355)
                       \* "raw"    : the listing is used as the file system gives it (model-level
                       \*            negative control only: TLC must then report dependence)
@@ -47,8 +48,16 @@ CONSTANTS MaxRoots,   \* enumeration bound on the number of roots on the command
 (*   roots : <<[id, pkg]>>            candidate roots                      *)
 (*   dirs  : <<[path, ents]>>         path = <<root, sub, ...>>,           *)
 (*           ents = <<[id, kind]>>, kind in init|mod|pkg|dir|dot|other     *)
+(*   sites : <<[name, mod, how, elems]>>  collections of names that reach  *)
+(*           the page of module `mod`: elems = <<[m, r]>> (defined in      *)
+(*           module m, rank r of its sort key) in the order the code       *)
+(*           collects them; how = "list" (shown in collection order: zope  *)
+(*           allImplementedInterfaces, zopeinterface.py:42-57) | "sorted"  *)
+(*           (sorted before use: Class.subclasses, pages/__init__.py:465)  *)
+(*           | "set" (iterated as a set: a choice point - none in the code *)
+(*           as it is; used by the model-level negative control)           *)
 Universe == IF Source = "enum" THEN JsonDeserialize(IOEnv.C18_UNIVERSE)
-            ELSE [roots |-> <<>>, dirs |-> <<>>]
+            ELSE [roots |-> <<>>, dirs |-> <<>>, sites |-> <<>>]
 \* observed runs: <<[reg, u, roots, named, setOrder, listing (seq aligned with u.dirs), outdir]>>
 FileRuns == IF Source = "file" THEN JsonDeserialize(IOEnv.C18_RUNS) ELSE <<>>
 
@@ -74,11 +83,12 @@ VARIABLES pid,        \* index of the input (register number)
           stack,      \* addPackage frames: <<[dir, rest]>>, innermost last
           mods,       \* modules in the order they entered System.allobjects
           setOrder,   \* environment: iteration order of root_names in this process
+          siteOrder,  \* environment: iteration order of every other set of names (aligned with u.sites)
           listing,    \* environment: dir path -> order the file system gave (as taken so far)
           outdir,     \* environment: "fresh" | "reused"
           projname,   \* System.projectname as a sequence of root ids (<<0>> = the given name)
           out         \* the output directory: file id -> content
-vars == <<pid, u, roots, named, phase, pc, nroot, stack, mods, setOrder, listing, outdir, projname, out>>
+vars == <<pid, u, roots, named, phase, pc, nroot, stack, mods, setOrder, siteOrder, listing, outdir, projname, out>>
 
 RootRec(r) == CHOOSE x \in Rng(u.roots) : x.id = r
 DirRec(path) == CHOOSE d \in Rng(u.dirs) : d.path = path
@@ -99,14 +109,14 @@ Init ==
      THEN /\ pid \in 1..NProjects
           /\ u = Universe
           /\ roots = EnumProjects[pid].roots /\ named = EnumProjects[pid].named
-          /\ outdir \in {"fresh", "reused"}
+          /\ outdir \in (IF Len(EnumProjects[pid].roots) <= ReuseUpTo THEN {"fresh", "reused"} ELSE {"fresh"})
      ELSE /\ pid \in 1..NProjects
           /\ u = FileRuns[pid].u
           /\ roots = FileRuns[pid].roots /\ named = FileRuns[pid].named
           /\ outdir = FileRuns[pid].outdir
   /\ phase = IF outdir = "reused" THEN "prev" ELSE "cur"
   /\ pc = "add" /\ nroot = 0 /\ stack = <<>> /\ mods = <<>>
-  /\ setOrder = <<>> /\ listing = <<>> /\ projname = <<>>
+  /\ setOrder = <<>> /\ siteOrder = <<>> /\ listing = <<>> /\ projname = <<>>
   /\ out = <<>>
 
 \* driver.get_system step 2: for path in options.sourcepath: builder.addModule(path)  (driver.py:63-65)
@@ -123,7 +133,7 @@ AddRoot ==
                   /\ stack' = <<OpenDir(<<r>>, Given(<<r>>))>>
                   /\ listing' = Append(listing, [dir |-> <<r>>, order |-> Given(<<r>>)])
           ELSE UNCHANGED <<stack, listing>>
-  /\ UNCHANGED <<pid, u, roots, named, phase, pc, setOrder, outdir, projname, out>>
+  /\ UNCHANGED <<pid, u, roots, named, phase, pc, setOrder, siteOrder, outdir, projname, out>>
 
 \* one iteration of the for loop in addPackage (model.py:1355-1360)
 StepEntry ==
@@ -146,29 +156,48 @@ StepEntry ==
                   /\ mods' = Append(mods, sub) /\ stack' = here /\ UNCHANGED listing
              [] OTHER ->                   \* __init__.py, dot file, non-python file, plain directory
                   /\ stack' = here /\ UNCHANGED <<mods, listing>>
-  /\ UNCHANGED <<pid, u, roots, named, phase, pc, nroot, setOrder, outdir, projname, out>>
+  /\ UNCHANGED <<pid, u, roots, named, phase, pc, nroot, setOrder, siteOrder, outdir, projname, out>>
 
 PopFrame ==
   /\ pc = "add" /\ stack # <<>> /\ stack[Len(stack)].rest = <<>>
   /\ stack' = SubSeq(stack, 1, Len(stack) - 1)
-  /\ UNCHANGED <<pid, u, roots, named, phase, pc, nroot, mods, setOrder, listing, outdir, projname, out>>
+  /\ UNCHANGED <<pid, u, roots, named, phase, pc, nroot, mods, setOrder, siteOrder, listing, outdir, projname, out>>
 
 AllAdded ==
   /\ pc = "add" /\ stack = <<>> /\ nroot = Len(roots)
   /\ pc' = "guess"
-  /\ UNCHANGED <<pid, u, roots, named, phase, nroot, stack, mods, setOrder, listing, outdir, projname, out>>
+  /\ UNCHANGED <<pid, u, roots, named, phase, nroot, stack, mods, setOrder, siteOrder, listing, outdir, projname, out>>
 
 \* driver.get_system step 3 (driver.py:74-79); root_names is a set (model.py:1020-1022)
 SetChoices == IF phase = "prev" THEN {SortSeq(roots, LAMBDA a, b : a < b)}
               ELSE IF Source = "file" THEN {FileRuns[pid].setOrder}
               ELSE SetToSeqs(Rng(roots))
+\* the other collections of names: what a site shows, given the modules that are part of the run
+Lt(a, b) == a < b
+SiteRanks(i) == LET el == SelectSeq(u.sites[i].elems, LAMBDA e : e.m \in Rng(mods))
+                IN [k \in DOMAIN el |-> el[k].r]
+SiteChoice(i) == IF u.sites[i].how = "set" /\ phase = "cur" /\ Source = "enum"
+                 THEN SetToSeqs(Rng(SiteRanks(i))) ELSE {SortSeq(SiteRanks(i), Lt)}
+RECURSIVE SiteChoices(_)
+SiteChoices(i) == IF i > Len(u.sites) THEN {<<>>}
+                  ELSE {<<p>> \o rest : p \in SiteChoice(i), rest \in SiteChoices(i + 1)}
+SiteOut(i) == CASE u.sites[i].how = "list"   -> SiteRanks(i)
+                [] u.sites[i].how = "sorted" -> SortSeq(SiteRanks(i), Lt)
+                [] OTHER                     -> siteOrder[i]
 GuessName ==
   /\ pc = "guess"
-  /\ \E so \in SetChoices :
+  /\ \E so \in SetChoices, sp \in SiteChoices(1) :
        /\ setOrder' = so
+       /\ siteOrder' = sp
        /\ projname' = IF named THEN <<0>> ELSE IF Guess = "set" THEN so ELSE roots
   /\ pc' = "write"
   /\ UNCHANGED <<pid, u, roots, named, phase, nroot, stack, mods, listing, outdir, out>>
+
+\* IndexPage.rootkind (summary.py:318): sorted(set(kinds of the roots), key=name); MODULE = 1 < PACKAGE = 2
+RootKinds == SortSeq(SetToSeq({IF RootRec(r).pkg THEN 2 ELSE 1 : r \in Rng(roots)}), Lt)
+SitesOf(m) == LET idx == SelectSeq([i \in 1..Len(u.sites) |-> i], LAMBDA i : u.sites[i].mod = m)
+              IN [k \in DOMAIN idx |-> SiteOut(idx[k])]
+ModuleOfPage(f) == IF f = <<0, 0>> THEN <<roots[1]>> ELSE Tail(f)
 
 (* The written tree.  File ids are sequences of numbers:                   *)
 (*   <<0, k>>       index.html (k=0) and the summary pages                 *)
@@ -183,6 +212,8 @@ Written ==
   IN [f \in files |->
         IF f[1] = 2 THEN [pn |-> <<>>, body |-> <<<<0, 0>>>>]                   \* symlink target
         ELSE IF f = <<0, 5>> THEN [pn |-> projname, body |-> mods]             \* allobjects order
+        ELSE IF f = <<0, 0>> /\ ~Single THEN [pn |-> projname, body |-> <<RootKinds>>]
+        ELSE IF f \in pages THEN [pn |-> projname, body |-> SitesOf(ModuleOfPage(f))]
         ELSE [pn |-> projname, body |-> <<>>]]
 \* files are opened 'wb', the symlink is unlinked and re-created: new content wins, old files stay
 Overlay(old, new) ==
@@ -193,8 +224,8 @@ Write ==
   /\ out' = Overlay(out, Written)
   /\ IF phase = "prev"
      THEN /\ phase' = "cur" /\ pc' = "add" /\ nroot' = 0 /\ mods' = <<>> /\ listing' = <<>>
-          /\ setOrder' = <<>> /\ projname' = <<>>
-     ELSE /\ pc' = "done" /\ UNCHANGED <<phase, nroot, mods, listing, setOrder, projname>>
+          /\ setOrder' = <<>> /\ siteOrder' = <<>> /\ projname' = <<>>
+     ELSE /\ pc' = "done" /\ UNCHANGED <<phase, nroot, mods, listing, setOrder, siteOrder, projname>>
   /\ UNCHANGED <<pid, u, roots, named, stack, outdir>>
 
 Next == AddRoot \/ StepEntry \/ PopFrame \/ AllAdded \/ GuessName \/ Write
@@ -214,5 +245,8 @@ Emit == Done =>
   PrintT(ToJson([pid |-> pid, reg |-> Reg, roots |-> roots, named |-> named, outdir |-> outdir,
                  setOrder |-> setOrder, listing |-> listing,
                  projname |-> projname, mods |-> mods, files |-> FileList(out),
-                 alldocs |-> IF <<0, 5>> \in DOMAIN out THEN out[<<0, 5>>].body ELSE <<>>]))
+                 alldocs |-> IF <<0, 5>> \in DOMAIN out THEN out[<<0, 5>>].body ELSE <<>>,
+                 rootkinds |-> IF Single THEN <<>> ELSE RootKinds,
+                 sites |-> LET idx == SelectSeq([i \in 1..Len(u.sites) |-> i], LAMBDA i : u.sites[i].mod \in Rng(mods))
+                           IN [k \in DOMAIN idx |-> [name |-> u.sites[idx[k]].name, order |-> SiteOut(idx[k])]]]))
 =============================================================================
